@@ -33,6 +33,16 @@ Proof.
 Qed.
 Print Assumptions growth_pgnos.
 
+(** the incremental sync after ANY growth succeeds: for every previous commit
+    (below, at — exactly 1 GiB — or above the lock page), every commit and every
+    page map SQLite can produce (distinct pages in 1..commit, never the lock
+    page), the encoder accepts what writeLTXFromWAL feeds it *)
+Theorem incremental_sync_accepted : forall lock prev commit keys,
+  NoDup keys -> (forall k, In k keys -> 1 <= k <= commit /\ k <> lock) ->
+  enc_run false lock commit 0 (wal_pgnos lock prev commit keys) = None.
+Proof. exact wal_encoder_accepts. Qed.
+Print Assumptions incremental_sync_accepted.
+
 (** the encoder accepts writeLTXFromDB's sequence for every valid page size and
     every commit, in snapshot files (including the lock-1 -> lock+1 step) and in
     full images written with a TXID > 1; any sequence containing the lock page
